@@ -21,3 +21,24 @@ REG["C05"] = {
                    "(NaN/inf/denormal) payloads; the real validator must accept each output."),
     "level_note": _NOTE,
 }
+
+REG["C01"] = {
+    "technique": "TLC model checking of Reader.tla/MC_C01.tla (ImplRead refines ReadSpec for every layout x field selector x level x box selector) + replay of every emitted scenario into the real indexing interface, arrays mapped back to tokens by digest",
+    "level_text": ("Exhaustive within bounds over selector forms (names, ints incl. negative/too large, ascending index and name lists, every non-empty forward slice, "
+                   "box ints, numpy ints, slices, lists, masks of right and wrong length) x layouts (<=3 boxes over <=3 files, every disk order) x levels; "
+                   "each scenario is executed on the real reader in 2D/3D with wild (NaN/inf/denormal) and tame payloads and compared token-exactly, shapes included."),
+    "level_note": _NOTE,
+}
+REG["C15"] = {
+    "technique": "TLC model checking of MC_C01.tla in iteration mode (one imap task per file, every start/finish interleaving, IterRefines: bag equality + exactly-once) + replay of each behaviour with the scheduled pool; stream.iter(bsel) replayed against ReadSpec",
+    "level_text": ("Every completion order of the per-file read tasks for <=4 boxes over <=3 files and every field selector form is explored by TLC and "
+                   "replayed into the real iterator (termination guarded by a yield budget); the on-demand iterator is replayed for all slice/list/mask selections."),
+    "level_note": _NOTE,
+}
+REG["C02"] = {
+    "technique": "TLC model checking of MC_C02.tla (constructor steps refine MetaSpec for level counts x field lists with repeats x limits x modes) + replay: real PlotfileCooker attributes vs an independent header parser restricted to what MetaSpec says must be exposed",
+    "level_text": ("All level counts 1..4, field lists over a small alphabet (repeats arise), limits incl. above-finest, and the three opening modes are enumerated by TLC; "
+                   "each is opened for real under seeded configurations (2D/3D, non-zero origin, anisotropic cells, long ratio line, trailing blanks, scattered layouts) "
+                   "and every exposed attribute is compared by float equality with the independent parse; header-only runs on a directory without level data."),
+    "level_note": _NOTE,
+}
